@@ -27,6 +27,8 @@ func main() {
 		runWallet(*tier, *seed, *summary, *out)
 	case "tamper":
 		runTamper(*tier, *seed, *summary, *out)
+	case "codec":
+		runCodec(*tier, *seed, *summary, *out)
 	default:
 		fmt.Fprintln(os.Stderr, "unknown mode", mode)
 		os.Exit(2)
